@@ -203,6 +203,8 @@ def main_for(chk: Check, pid: str, models: bool = True):
     canaries(chk, pid, ok)
     if pid == "C17":
         elite_sweep(chk)
+    if pid == "C03":
+        pooled_best_sweep(chk)
     if pid == "C06":
         # second half of the property: an invalid call is rejected up front (Instance histories with OptimizeBadCall,
         # Optimize without configuration, SetConfig with a bad dictionary), replayed on all 84 classes
@@ -366,7 +368,7 @@ def elite_sweep(chk: Check):
         for v in r["bests"] + [r["best"]]:
             rk.add(v)
         rk.freeze()
-        recs.append({"id": k + 1, "dir": r["dir"], "bests": [rk.rk(v) for v in r["bests"]], "best": rk.rk(r["best"])})
+        recs.append({"id": k + 1, "kind": "elite", "dir": r["dir"], "bests": [rk.rk(v) for v in r["bests"]], "best": rk.rk(r["best"])})
     bad, st, consumed = corpus.judge("TraceElite.tla", "TraceElite.cfg", recs, "elite", jobs=8, per_batch=400)
     chk.states += st
     chk.transitions += st
@@ -388,3 +390,61 @@ def elite_sweep(chk: Check):
         c["bests"][3] = worse
         cbad, _, _ = corpus.judge("TraceElite.tla", "TraceElite.cfg", [c], "elite-canary", jobs=1)
         chk.canary("C17.mono#long", (1, "C17.mono") in set(cbad), "one generation's best cost of a real long run made worse")
+
+
+def _pooled_run(spec):
+    import contextlib, io, warnings
+    import numpy as np
+    import pyvolutionary
+    from . import tasks
+    opt, desc = spec["opt"], spec["desc"]
+    try:
+        cfg = getattr(pyvolutionary, gen.FIX[opt]["config_class"])(**spec["cfg"])
+    except Exception:
+        return None
+    if gen.precondition(opt, spec["cfg"], desc):
+        return None
+    tasks.REC.reset()
+    try:
+        with contextlib.redirect_stdout(io.StringIO()), warnings.catch_warnings(), np.errstate(all="ignore"):
+            warnings.simplefilter("ignore")
+            res = getattr(pyvolutionary, opt)(cfg).optimize(tasks.build_task(desc, cls=tasks.PlainTask), mode=spec["mode"], workers=spec["workers"])
+    except Exception:
+        return None
+    ids = {}
+    last = [[ids.setdefault(corpus._key(a.position), len(ids) + 1), a.cost] for a in res.evolution[-1].agents]
+    b = res.best_solution
+    return {"opt": opt, "dir": desc["minmax"], "last": last, "best": [ids.setdefault(corpus._key(b.position), len(ids) + 1), b.cost], "spec": spec}
+
+
+def pooled_best_sweep(chk: Check):
+    """C03 'generations whose order was permuted by a parallel pool': extra thread-mode runs of every optimizer, judged
+    by PopRel!BestIsOptimum (TraceElite.tla, kind best)"""
+    import concurrent.futures as cf
+    rng = random.Random(chk.seed + 777)
+    specs = []
+    for opt in gen.OPTIMIZERS:
+        for _ in range(12 if chk.tier == "thorough" else 4):
+            d = gen.task_desc(rng, "contmulti", dim=rng.choice([2, 3]))
+            d["family"] = rng.choice(["step", "sphere", "linear"])        # plateaus give ties
+            specs.append({"opt": opt, "desc": d, "cfg": gen.config_dict(rng, opt, max_cycles=rng.choice([2, 3, 4])),
+                          "mode": "thread", "workers": rng.choice([2, 3, 8])})
+    with cf.ProcessPoolExecutor(14) as ex:
+        outs = [r for r in ex.map(_pooled_run, specs, chunksize=4) if r]
+    recs = []
+    for k, r in enumerate(outs):
+        rk = corpus.Ranker()
+        for _, u in r["last"]:
+            rk.add(u)
+        rk.add(r["best"][1])
+        rk.freeze()
+        recs.append({"id": k + 1, "kind": "best", "dir": r["dir"], "last": [[p, rk.rk(u)] for p, u in r["last"]],
+                     "best": [r["best"][0], rk.rk(r["best"][1])], "bests": [], "best_": 0})
+    bad, st, consumed = corpus.judge("TraceElite.tla", "TraceElite.cfg", recs, "pooledbest", jobs=6, per_batch=200)
+    chk.states += st
+    chk.transitions += st
+    chk.traces += consumed
+    chk.evaluations += consumed
+    for rid, clause in bad:
+        chk.violation(clause, {"optimizer": outs[rid - 1]["opt"], "mode": "thread"}, {"run": outs[rid - 1]["spec"]})
+    chk.extra["pooled_best_sweep_runs"] = consumed
